@@ -205,12 +205,10 @@ static void runCase(uint64_t id, Rng rng, size_t nEvents, std::ostream &o, bool 
 	// current inputs
 	bool inPush = false, inPop = false;
 	std::string inData = toBits(0, w);
-	// The flag outputs are checked from power-on. Until the almost-full register has seen its first non-reset push edge it
-	// holds its reset value '0', which is right for every level < N but not for the degenerate level == N ("at most N places
-	// free", constantly true): that level is only applied afterwards (C15_AF_LEVEL_N_AT_RESET=1 applies it from the start).
-	uint64_t finalAfl = rng.below(N + 1);
-	uint64_t inAfl = getenv("C15_AF_LEVEL_N_AT_RESET") ? N : rng.below(N), inAel = rng.below(N + 1);
-	bool pushEdgeSeen = false;
+	// The flag outputs are checked from power-on and the levels are unrestricted from power-on. (level == depth while the
+	// almost-full register still holds its reset value '0' is a known finding with its own PROPFAIL kind;
+	// C15_AF_LEVEL_N_AT_RESET=1 forces that level from the start.)
+	uint64_t inAfl = getenv("C15_AF_LEVEL_N_AT_RESET") ? N : rng.below(N + 1), inAel = rng.below(N + 1);
 	Mode mode = IDLE; size_t modeLeft = 0;
 	uint64_t counter = 1;
 
@@ -238,7 +236,7 @@ static void runCase(uint64_t id, Rng rng, size_t nEvents, std::ostream &o, bool 
 		if (kind == 0) { inData = toBits(rng.next(), w); }
 		else if (kind == 1) { inData = toBits(counter++, w); inData[rng.below(w)] = 'x'; }
 		else inData = toBits(counter++, w);
-		if (pushEdgeSeen) inAfl = varyLevels ? (rng.chance(1, 8) ? rng.below(2 * N) : rng.below(N + 1)) : finalAfl;
+		if (varyLevels) inAfl = rng.chance(1, 8) ? rng.below(2 * N) : rng.below(N + 1);
 	};
 	auto choosePop = [&](bool implEmpty) {
 		switch (mode) {
@@ -277,7 +275,6 @@ static void runCase(uint64_t id, Rng rng, size_t nEvents, std::ostream &o, bool 
 		  << " | " << full << ' ' << pvalid << ' ' << af << ' ' << psize
 		  << " | " << empty << ' ' << qvalid << ' ' << ae << ' ' << qsize << ' ' << peek << '\n';
 
-		if (pc && !pr) pushEdgeSeen = true;
 		if (!released) {
 			released = !spy.pushRst && !spy.popRst;
 			if (!released) continue; // keep idling while any reset is asserted
@@ -610,8 +607,8 @@ static void runTransCase(uint64_t id, Rng rng, size_t nEvents, std::ostream &o) 
 
 	bool push = false, pc = false, pr = false, pop = false, qc = false, qr = false;
 	uint64_t cutoff = 0;
-	bool varyLevels = rng.chance(1, 3), edgeSeen = false;
-	uint64_t finalAfl = rng.below(N + 1), afl = getenv("C15_AF_LEVEL_N_AT_RESET") ? N : rng.below(N), ael = rng.below(N + 1); // see runCase
+	bool varyLevels = rng.chance(1, 3);
+	uint64_t afl = getenv("C15_AF_LEVEL_N_AT_RESET") ? N : rng.below(N + 1), ael = rng.below(N + 1); // unrestricted from power-on, see runCase
 	std::string data = toBits(0, w);
 	uint64_t counter = 1;
 	size_t tentative = 0; // pushes accepted since the last push commit / rollback (bounds the cutoff)
@@ -656,9 +653,7 @@ static void runTransCase(uint64_t id, Rng rng, size_t nEvents, std::ostream &o) 
 			default: push = pop = pc = pr = qc = qr = false;
 		}
 		cutoff = (pc && tentative > 0 && rng.chance(1, 6)) ? rng.range(1, tentative) : 0;
-		// the level N is only applied once the flag register has seen a non-reset edge (see runCase)
-		if (!rst) edgeSeen = true;
-		if (edgeSeen) afl = varyLevels ? (rng.chance(1, 8) ? rng.below(2 * N) : rng.below(N + 1)) : finalAfl;
+		if (varyLevels) afl = rng.chance(1, 8) ? rng.below(2 * N) : rng.below(N + 1);
 		if (varyLevels) ael = rng.chance(1, 8) ? rng.below(2 * N) : rng.below(N + 1);
 		data = rng.chance(1, 16) ? toBits(rng.next(), w) : toBits(counter++, w);
 	}
